@@ -1,25 +1,7 @@
-import Spine.Registry
+import Drivers.RegWorld
 open Spine.Reg
 /-! Line protocol for the registry family (C08, C09, C10). One op per line, one answer per line.
     `cfg a b c d` (0/1 each) selects the member: delSubByDevice delBindByDevice unbindDisjunct dropBindsAnyPeer. -/
-def parseEnt (s : String) : List Nat := (s.splitOn ".").filterMap String.toNat?
-def showEnt (e : List Nat) : String := ".".intercalate (e.map toString)
-def showEntry (e : Entry) : String := s!"{e.id}:{showEnt e.sEnt}/{e.sFeat}<-{e.peer}:{showEnt e.cEnt}/{e.cFeat}"
-def showL (l : List Entry) : String := if l.isEmpty then "." else ",".intercalate (l.map showEntry)
-def remoteFeats : List Feat := [
-  ⟨[0], 0, 100, .special⟩,
-  ⟨[1], 1, 1, .client⟩, ⟨[1], 2, 2, .client⟩, ⟨[1], 3, 0, .client⟩, ⟨[1], 4, 1, .server⟩,
-  ⟨[2], 1, 1, .client⟩ ]
-def localFeats : List Feat := [
-  ⟨[0], 0, 100, .special⟩, ⟨[0], 1, 3, .server⟩,
-  ⟨[1], 1, 1, .server⟩, ⟨[1], 2, 2, .server⟩, ⟨[1], 3, 1, .client⟩,
-  ⟨[2], 1, 1, .server⟩, ⟨[2], 2, 4, .server⟩ ]
-/-- local server features with a writable function in the harness world -/
-def writable : List (List Nat × Nat) := [([1], 1), ([1], 2), ([2], 1)]
-def init : St := { loc := localFeats, rem := fun _ => remoteFeats }
-def b (x : Bool) : String := if x then "ok" else "err"
-def nats (ws : List String) : Option (List Nat) := ws.mapM String.toNat?
-def bit (n : Nat) : Bool := n != 0
 def answer (cfg : Cfg) (s : St) (ws : List String) : Cfg × St × String :=
   match ws with
   | ["sub", p, ce, cf, se, sf, t] => match nats [p, cf, sf, t] with
